@@ -511,6 +511,19 @@ def run(ctx):
     check_config(ctx, fb)
     check_open(ctx, fb)
     check_tree_replacement(ctx, fb)
+    # R16-7 (shared with C11 R11-1..R11-3): "storage failures are reported" to a C caller too: the wrappers of the tree mutators and
+    # of flush return true exactly on the method's Ok and false on its Err
+    from . import c11
+    k7 = 0
+    for w in c11.wrappers(fb):
+        if w["name"] in ("flush", "set_leaf", "set_next_leaf", "delete_leaf", "set_leaves_from", "init_tree_with_leaves", "atomic_operation",
+                         "seq_atomic_operation", "set_metadata", "set_tree"):
+            sub7 = type(ctx)(ctx.pid, ctx.tier)
+            c11.check_wrapper(sub7, fb, w, "default")
+            k7 += 1
+            for r in sub7.results:
+                (ctx.ok if r.status == "ok" else ctx.fail)("R16-7", r.instance, r.reason, r.loc)
+    ctx.floor("storage-ffi-wrappers", k7, 10)
     # R16-6 (shared with C06 R06-11): an acknowledged write is handed to sled whole: put / put_batch insert every record they
     # receive, unconditionally, and report Ok only when sled did
     from . import c06
